@@ -145,6 +145,15 @@ func (wg *WeightedAuthorizationModelGraph) AssignWeights() error {
 			return fmt.Errorf("%w: %d tuple cycles found without resolution", ErrTupleCycle, len(tupleCyles))
 		}
 	}
+
+	// a relation that only refers to itself through tuples (e.g. `define a: [doc#a]`) resolves its cycle
+	// with nothing left: it can never reach a terminal type
+	for nodeID, node := range wg.nodes {
+		if node.nodeType != SpecificType && node.nodeType != SpecificTypeWildcard && len(node.weights) == 0 {
+			return fmt.Errorf("%w: %s node does not have any terminal type to reach to", ErrInvalidModel, nodeID)
+		}
+	}
+
 	return nil
 }
 
